@@ -154,6 +154,7 @@ func ruleStopCancelsTable(c *chk.Ctx, owner string, table *types.Var, via *types
 func ruleStopCallsField(c *chk.Ctx, owner string, f *types.Var, what string) {
 	stop := stopFunc(c, owner)
 	if stop == nil {
+		c.Undecided("TOKEN.stop", nil, "ruleStopCallsField: anchor", 0, "the code this rule is anchored in was not found (stop == nil)")
 		return
 	}
 	var closeSite ssa.Instruction
@@ -175,6 +176,7 @@ func ruleStopCallsField(c *chk.Ctx, owner string, f *types.Var, what string) {
 func ruleRetainNotifications(c *chk.Ctx) {
 	stop := stopFunc(c, "server")
 	if stop == nil {
+		c.Undecided("RUN.retain", nil, "ruleRetainNotifications: anchor", 0, "the code this rule is anchored in was not found (stop == nil)")
 		return
 	}
 	isQ := func(ci ssa.CallInstruction, name string) bool {
